@@ -680,6 +680,46 @@ func augment(lines []string, guard, goal string, intFuncs map[string]bool) (extr
 		}
 		walkEx(sk, map[string]bool{})
 	}
+	// after an append, index i of the second operand sits at len(first)+i of the result and back:
+	// offset candidates for the goal's constants (and later for witnesses)
+	var splits []*sexp
+	for _, l := range lines {
+		if strings.HasPrefix(l, "(define-fun alen!") {
+			if f, ok := parseSexp(l); ok && len(f.list) == 5 && f.list[4].head() == "+" && len(f.list[4].list) == 3 {
+				splits = append(splits, f.list[4].list[1])
+			}
+		}
+	}
+	if len(splits) != 1 {
+		splits = nil // shifted candidates are for the single-concatenation lemmas (append(a, b...) then a search)
+	}
+	isOffset := map[string]bool{}
+	offsetTerms := func(c *sexp) []*sexp {
+		var out []*sexp
+		for _, sp := range splits {
+			out = append(out, &sexp{list: []*sexp{{atom: "+"}, sp, c}}, &sexp{list: []*sexp{{atom: "-"}, c, sp}})
+		}
+		for _, o := range out {
+			isOffset[o.String()] = true
+		}
+		return out
+	}
+	nIntConsts := 0
+	for _, c := range consts {
+		if c[1] == "Int" {
+			nIntConsts++
+		}
+	}
+	// (only for goals about a single index: with several constants the shifted terms crowd out the rest)
+	if len(splits) > 0 && nIntConsts == 1 {
+		for _, c := range consts {
+			if c[1] == "Int" {
+				terms = append(terms, offsetTerms(&sexp{atom: c[0]})...)
+			}
+		}
+	} else {
+		splits = nil
+	}
 	// witness indices introduced by library models (l.ForName(n) is l[fornameidx]) are
 	// what uniqueness / first-match hypotheses have to be instantiated at
 	if len(terms) > 0 {
@@ -717,25 +757,60 @@ func augment(lines []string, guard, goal string, intFuncs map[string]bool) (extr
 	}
 	seen := map[string]bool{}
 	limit := 600
+	var prio []*sexp
 	for round := 0; round < 3; round++ {
-		if len(terms) > 10 {
-			terms = terms[:10]
+		if len(terms) > 12 {
+			terms = terms[:12]
 		}
 		newApps := map[string]*sexp{}
 		bySort := map[string][]*sexp{"Int": terms}
 		for k, v := range other {
 			bySort[k] = v
 		}
-		// first the instances at constants only (goal constants and witnesses): existentials that
-		// these expose are eliminated and their witnesses offered to the next round
+		// first the instances at the priority constants only - the goal's constants in the first round, the
+		// witnesses they produced (in order of creation) in the later ones, each with its shifts across
+		// an append: existentials that these expose are eliminated and their witnesses offered to the next round
 		constOnly := map[string][]*sexp{}
 		for k, v := range bySort {
 			for _, t := range v {
-				if t.list == nil && (strings.HasPrefix(t.atom, "sk!") || strings.HasPrefix(t.atom, "hk!")) {
-					constOnly[k] = append(constOnly[k], t)
+				if k != "Int" {
+					if t.list == nil && (strings.HasPrefix(t.atom, "sk!") || strings.HasPrefix(t.atom, "hk!")) {
+						constOnly[k] = append(constOnly[k], t)
+					}
+					continue
 				}
 			}
 		}
+		if prio == nil {
+			for _, c := range consts {
+				if c[1] == "Int" {
+					prio = append(prio, &sexp{atom: c[0]})
+				}
+			}
+			for _, t := range terms {
+				if t.list != nil && isOffset[t.String()] {
+					prio = append(prio, t)
+				}
+			}
+		}
+		constOnly["Int"] = nil
+		for _, c := range consts {
+			if c[1] == "Int" {
+				constOnly["Int"] = append(constOnly["Int"], &sexp{atom: c[0]})
+			}
+		}
+		for _, t := range prio {
+			dup := false
+			for _, u := range constOnly["Int"] {
+				if u.String() == t.String() {
+					dup = true
+				}
+			}
+			if !dup {
+				constOnly["Int"] = append(constOnly["Int"], t)
+			}
+		}
+		var newWit []*sexp
 		nWit := 0
 		for _, f := range quantified {
 			if round >= 2 || !strings.Contains(f.String(), "(exists ") {
@@ -751,6 +826,7 @@ func augment(lines []string, guard, goal string, intFuncs map[string]bool) (extr
 							extraDecls = append(extraDecls, fmt.Sprintf("(declare-const %s %s)", c[0], c[1]))
 							if c[1] == "Int" {
 								newApps[c[0]] = &sexp{atom: c[0]}
+								newWit = append(newWit, &sexp{atom: c[0]})
 							}
 						}
 					}
@@ -778,15 +854,29 @@ func augment(lines []string, guard, goal string, intFuncs map[string]bool) (extr
 			have[t.String()] = true
 		}
 		added := false
+		// the witnesses go first, in order of creation (the earliest come from the goal's own constants):
+		// the cut at the start of the next round must not drop them
+		if len(newWit) > 5 {
+			newWit = newWit[:5]
+		}
 		var front []*sexp
+		prio = nil
+		for i, w := range newWit {
+			front = append(front, w)
+			prio = append(prio, w)
+			if i < 2 {
+				off := offsetTerms(w)
+				front = append(front, off...)
+				prio = append(prio, off...)
+			}
+			added = true
+		}
+		if prio == nil {
+			prio = []*sexp{}
+		}
 		for _, k := range sortedSexpKeys(newApps) {
-			if !have[k] {
-				// witnesses of eliminated existentials go first: the cut below must not drop them
-				if strings.HasPrefix(k, "hk!") {
-					front = append(front, newApps[k])
-				} else {
-					terms = append(terms, newApps[k])
-				}
+			if !have[k] && !strings.HasPrefix(k, "hk!") {
+				terms = append(terms, newApps[k])
 				added = true
 			}
 		}
